@@ -262,6 +262,10 @@ def run(report, p):
         if t not in ("builtin:open", "ext:os.mkdir", "ext:os.replace", "ext:os.makedirs"):
             r2.check(False, f, call, f"mutating primitive {det} reachable from flatten", witness=" -> ".join(p.witness(reach, f.qual)))
             continue
+        if t == "ext:os.makedirs":
+            # makedirs creates every missing ancestor as well - also those ABOVE the destination
+            r2.check(False, f, call, f"`{norm(call)[:60]}` creates all missing ancestors of its path: when the parent folders of the destination do not exist, flatten creates folders outside (above) its destination instead of failing", construct="os.makedirs in flatten's reach")
+            continue
         for arg in path_args(call, t):
             bad = []
             n_ok = 0
